@@ -77,7 +77,9 @@ impl JsonEncoder {
             thread_id: thread_id::get(),
             mdc: Mdc,
         };
-        message.serialize(&mut serde_json::Serializer::new(&mut *w))?;
+        message.serialize(&mut serde_json::Serializer::with_formatter(
+            &mut *w, LineSafe,
+        ))?;
         w.write_all(NEWLINE.as_bytes())?;
         Ok(())
     }
@@ -86,6 +88,28 @@ impl JsonEncoder {
 impl Encode for JsonEncoder {
     fn encode(&self, w: &mut dyn Write, record: &Record) -> anyhow::Result<()> {
         self.encode_inner(w, Local::now(), record)
+    }
+}
+
+/// Compact formatter which additionally escapes DEL, the C1 controls and the
+/// Unicode line / paragraph separators, so that no control character or newline
+/// of any kind appears raw inside the emitted line.
+struct LineSafe;
+
+impl serde_json::ser::Formatter for LineSafe {
+    fn write_string_fragment<W>(&mut self, w: &mut W, fragment: &str) -> std::io::Result<()>
+    where
+        W: ?Sized + std::io::Write,
+    {
+        let mut start = 0;
+        for (i, c) in fragment.char_indices() {
+            if matches!(c, '\u{7f}'..='\u{9f}' | '\u{2028}' | '\u{2029}') {
+                w.write_all(fragment[start..i].as_bytes())?;
+                write!(w, "\\u{:04x}", c as u32)?;
+                start = i + c.len_utf8();
+            }
+        }
+        w.write_all(fragment[start..].as_bytes())
     }
 }
 
